@@ -10,6 +10,11 @@ NOT_APPLICABLE = {
 for _p in ["C%02d" % i for i in range(1, 21)]:
     NOT_APPLICABLE.setdefault(_p, PENDING)
 CLAIMED = {
+    "C10": {
+        "text": "Decides structural necessary conditions of store coherence for all histories: every key-changing operation on the cell map is paired with both index operations under the same path condition or followed by the bulk rebuild; index orientation (as-is vs swapped) is consistent across all writers, the rebuild and every reader (symbolic normal forms of the iterator chains, name-free); the rebuild keys each cell by its own coordinate and follows every coordinate mutation of stored cells; inserters are called only from row-establishing contexts; the extent getter reads the right index. Does not decide agreement of listings at run time (needs the std-collection assumption).",
+        "note": NOTE,
+        "technique": "symbolic normal forms of loop-free methods incl. iterator chains and closures (MIR), event pairing under equal path conditions, post-dominance rules, who-may-call over the resolved call graph",
+    },
     "C07": {
         "text": "Decides structural necessary conditions of grid-like relocation for all edits: the extracted normal forms of the scalar insert/remove/band kernels and all sibling AdjustmentValue impls equal reference tables on every order type (finite, exhaustive); the range-removal predicate equals the per-axis reference for every API-reachable edit; type-driven fan-out coverage of every adjustment impl; retain-before-shift with the element's own band predicate; own-content moves guarded by sheet identity; axis slots not crossed; move/copy bounds dominate mutations. Does not decide equality with a reference grid after arbitrary histories.",
         "note": NOTE,
